@@ -13,12 +13,12 @@ LEAN_MODULES = ["MpfVerif.Props.C05"]
 PROPS_FILE = "MpfVerif/Props/C05.lean"
 GEN = []
 MANIFEST = {
-    "text": "PARTIAL proof. Proved in Lean about the eject loop of the ball ledger (Model/BallLedger.lean, shared with C04): a failed eject that is accepted as retryable carries attempt number tries+1, is only possible while attempts remain and excludes the broken report; the following attempt is only accepted with exactly that number; broken is enabled only at tries+1 = max_eject_attempts > 0, at most once, and a broken device takes no further eject-loop transition (no silent retry); ball_left can always time out (no stuck phase); a work measure (queued ejects, remaining attempts, phase) strictly decreases on every step inside an attempt and on every retryable failure when max_eject_attempts > 0, so an eject cannot loop for ever. NOT proved: liveness of the real asyncio coroutines. That is explored on every run: the real devices run inside a physical-world simulator through failure sequences up to max_eject_attempts+2 (stuck, fall-back, late, astray), overlapping requests, drains and lock shots; the ledger monitor must accept every observed step, and the quiescence oracle checks that all devices come to rest idle or broken-and-reported with no servable request left and every planned ball physically delivered.",
-    "note": "Outside the model (named runtime behaviour): asyncio task interleaving and timer expiry inside the coroutines, switch debounce, fairness of the event loop, player-controlled/mechanical ejects, ball_save and multiball devices (their requests enter through playfield.add_ball, which is what the harness calls), ball search. Trusted: Lean kernel + standard axioms; the hand-written ledger; harness/common/ballworld.py.",
+    "text": "PARTIAL proof. Proved in Lean about the eject loop of the ball ledger (Model/BallLedger.lean, shared with C04): a failed eject that is accepted as retryable carries attempt number tries+1, is only possible while attempts remain and excludes the broken report; the following attempt is only accepted with exactly that number; broken is enabled only at tries+1 = max_eject_attempts > 0, at most once, and a broken device takes no further eject-loop transition (no silent retry); ball_left can always time out (no stuck phase); a work measure (queued ejects, remaining attempts, phase) strictly decreases on every step inside an attempt and on every retryable failure when max_eject_attempts > 0, so an eject cannot loop for ever. Session 3 (mechanical / player-controlled ejects): a manual eject with no request pending is ADOPTED, not lost (manual_eject_adopted: the claim moves from the device to the target, the sum of available_balls is unchanged, an eject towards the target is tracked and the ball registered as incoming there, belief ledger untouched); its confirm window can always close (manual_eject_can_time_out); when the plunged ball comes back the request is kept with the same target, attempt 0, and the eject loop's waitTarget is enabled at once (manual_return_is_retried). NOT proved: liveness of the real asyncio coroutines. That is explored on every run: the real devices run inside a physical-world simulator through failure sequences up to max_eject_attempts+2 (stuck, fall-back, late, astray), overlapping requests, drains and lock shots; the ledger monitor must accept every observed step, and the quiescence oracle checks that all devices come to rest idle or broken-and-reported with no servable request left and every planned ball physically delivered.",
+    "note": "Outside the model (named runtime behaviour): asyncio task interleaving and timer expiry inside the coroutines, switch debounce, fairness of the event loop, ball_save and multiball devices (their requests enter through playfield.add_ball, which is what the harness calls), ball search. Trusted: Lean kernel + standard axioms; the hand-written ledger; harness/common/ballworld.py.",
     "technique": "Lean theorems on a hand-written protocol model (guards, exclusion, strictly decreasing measure) + runtime refinement monitor and quiescence oracle on the real devices",
     "translated": False,
 }
-RULE = C04.RULE + "; C05 stream: half of the cases put a failure sequence of 1-5 outcomes in front of one device's outcome list " \
+RULE = C04.RULE + "; C05 (stream 1): half of the cases put a failure sequence of 1-5 outcomes in front of one device's outcome list " \
     "and issue 1-5 overlapping requests"
 TRUSTED = C04.TRUSTED
 ASSUMPTIONS = C04.ASSUMPTIONS + ["weak fairness of the environment: the simulated world always completes a transit; a ball "
